@@ -155,6 +155,7 @@ def _run_driver_shard(args):
 def _run_harness_shard(args):
     binary, path, out, ncases = args
     skip = 0
+    stuck = 0
     if os.path.exists(out):
         os.remove(out)
     for _ in range(200):
@@ -162,6 +163,13 @@ def _run_harness_shard(args):
         lines = open(out).read().split('\n')[:-1] if os.path.exists(out) else []
         if rc == 0 and len(lines) == ncases:
             return lines
+        if rc == 3:
+            stuck += 1
+            if stuck >= 3:
+                # the implementation hangs on case after case (each costs the 20 s watchdog): three witnesses are
+                # enough; the remaining cases of this shard are not run
+                lines += ['TIMEOUT-SKIPPED'] * (ncases - len(lines))
+                return lines
         if rc == 3 or len(lines) < ncases:
             # TIMEOUT (status 3) or a hard crash: the last line belongs to the case that died
             if rc != 3:
